@@ -506,8 +506,10 @@ dr_get_number_of_workers() {
   } else {
     dr_worker_specific_state * wss;
     int n = 0;
+    /* the edge matrices of the report are indexed by worker id:
+       the largest participating id + 1, not the number of participants */
     for (wss = GS.worker_specific_state_list; wss; wss = wss->next) {
-      n++;
+      if (wss->worker + 1 > n) n = wss->worker + 1;
     }
     return n;
   }
